@@ -518,6 +518,15 @@ func (ls *sysListServer) Set(path string, content []byte) {
 	ls.mu.Unlock()
 }
 
+// Unset makes the server answer 404 for path.
+func (ls *sysListServer) Unset(path string) {
+	ls.mu.Lock()
+	delete(ls.lists, path)
+	delete(ls.cuts, path)
+	delete(ls.slows, path)
+	ls.mu.Unlock()
+}
+
 // HitsFor returns the number of requests seen for path.
 func (ls *sysListServer) HitsFor(path string) (n int) {
 	ls.mu.Lock()
